@@ -1,9 +1,76 @@
 import Driver.Util
+import MpcVerif.Model.Proto2
 
 namespace Drv.C02
+open Mpc Drv
 
-/-- Line-protocol handler of property C02 (stub). -/
-def handle (_args : List String) : String := "bad-op"
+def u32BE (n : Nat) : ByteArray :=
+  ByteArray.mk #[UInt8.ofNat (n >>> 24), UInt8.ofNat (n >>> 16), UInt8.ofNat (n >>> 8), UInt8.ofNat n]
+
+/-- Byte encoding of typed messages by `p2p.Conn` (property C11):
+data = 32-bit big-endian length + bytes, u32 = 4 bytes big-endian,
+label = 16 bytes big-endian. -/
+def encodeMsgs (ms : List (Msg (BitVec 128))) : ByteArray := Id.run do
+  let mut o := ByteArray.empty
+  for m in ms do
+    match m with
+    | .data bs => o := (o ++ u32BE bs.length) ++ ByteArray.mk bs.toArray
+    | .u32 n => o := o ++ u32BE n
+    | .label l => o := o ++ Aes.bytesOfNat128 l.toNat
+  return o
+
+def mkH (key : List UInt8) : Hash (BitVec 128) :=
+  match Aes.Cipher.new (ByteArray.mk key.toArray) with
+  | some c => aesHash c
+  | none => hashOf id
+
+def natHex (n : Nat) : String := String.ofList (Nat.toDigits 16 n)
+
+def natsStr (v : List Nat) : String :=
+  if v.isEmpty then "-" else ",".intercalate (v.map natHex)
+
+def parseNats (s : String) : Option (List Nat) :=
+  if s == "-" then some [] else (s.splitOn ",").mapM String.toNat?
+
+def idealOt : OtFun (BitVec 128) := fun ws fl => List.zipWith (fun w b => w.labelFor b) ws fl
+
+/-- `c02 <ot> <tape> <nw> <nin> <nout> <gates> <n0> <n1> <widths> <x> <y>` -/
+def handle (args : List String) : String :=
+  match args with
+  | [otName, tape, nw, nin, nout, gates, n0, n1, widths, x, y] =>
+    match Aes.bytesOfHex tape, parseCircuit nw nin nout gates, n0.toNat?, n1.toNat?, parseNats widths with
+    | some tape, some c, some n0, some n1, some widths =>
+      let p : Circuit2 := { c := c, n0 := n0, n1 := n1, outWidths := widths }
+      if tape.size < 32 + 16 * (1 + c.nIn) then "bad-op" else
+      let key := (tape.extract 0 32).toList
+      let r := setS (label128 tape 32)
+      let inl := fun i => label128 tape (32 + 16 * (i + 1))
+      let x := parseBits x
+      let y := parseBits y
+      match run2 p mkH key r inl x y idealOt with
+      | .error _ => "error"
+      | .ok (gres, eres) =>
+        let res := s!"g={natsStr gres};e={natsStr eres}"
+        if otName != "ideal" then res else
+        -- instrumented run for the transcript (same model functions)
+        let G := c.garble (mkH key) r inl
+        let f1 := garblerFlight1 p key G x
+        match evaluatorRecv1 p f1 with
+        | .error _ => "error"
+        | .ok (key', rows, inLabels, _) =>
+          let sendWires := (List.range n1).map fun i => G.wires.get (n0 + i)
+          let flags := (List.range n1).map fun i => y.getD i false
+          match evaluatorEval p (mkH key') rows inLabels (idealOt sendWires flags) with
+          | .error _ => "error"
+          | .ok outLabels =>
+            match garblerDecode p G 0 outLabels with
+            | .error _ => "error"
+            | .ok bits =>
+              let ge := encodeMsgs (f1 ++ [.data (natToBytesBE (packLE bits))])
+              let eg := encodeMsgs ([.u32 n0, .u32 n1] ++ outLabels.map .label)
+              s!"ge={Aes.hexOfBytes ge};eg={Aes.hexOfBytes eg};" ++ res
+    | _, _, _, _, _ => "bad-op"
+  | _ => "bad-op"
 
 end Drv.C02
 
